@@ -519,6 +519,19 @@ impl DtlsInner {
         is_client: bool,
     ) -> Result<Bytes> {
         if record.epoch == 0 {
+            // Epoch 0 is the unprotected handshake epoch. Application data never travels
+            // in it, and once keys are negotiated alerts are protected as well; taking such
+            // records at face value would let anyone on the path (or off it) inject data
+            // into the upper layer or close the connection with a forged close_notify.
+            let keys_negotiated = ctx.session_keys.is_some();
+            if record.content_type == ContentType::ApplicationData
+                || (keys_negotiated && record.content_type == ContentType::Alert)
+            {
+                return Err(anyhow::anyhow!(
+                    "Unprotected {:?} record rejected",
+                    record.content_type
+                ));
+            }
             return Ok(record.payload.clone());
         }
 
